@@ -29,6 +29,20 @@ CHECKS = {
         "Trusts CPython, the antlr4 runtime and the odometer model (mc/models/zid_model.py); dates within one century; no concurrent allocators.",
         "§4 C07",
     ),
+    "C08": (
+        "exploration",
+        "deviation-bounded exhaustive enumeration (0, 1, 2 edits away from valid seed pages + all short token strings) on the real compiler and index commands",
+        "Every single-character deletion/insertion/substitution over an alphabet of up to 30 symbols, every line and token edit of up to 12 seed pages that cover every construct, all pairs of line edits (thorough), and all token strings of length <= 3 are compiled by the real compiler; the oracle is the generated parser's own syntax-error counter (read from the intercepted parser instance, independent of ErrorManager) plus a line-shape item count, and an independent parse-tree walk decides whether a note was reachable. One representative per outcome class is pushed through real db create / db create -f / db reindex and the index is read back with sqlite3.",
+        "Lexer-level token-recognition errors (tab, NUL, non-ASCII) are outside the parser's report and only judged for totality; item count for damaged-but-accepted pages uses a line-shape rule.",
+        "§4 C08",
+    ),
+    "C12": (
+        "exploration",
+        "exhaustive small-scope enumeration of notes with a differential round-trip oracle (compile -> emit -> compile) on the real code",
+        "Every note of the enumerated single-item family (16 kind/priority forms x 4 identity forms x 1..2 words over 14 words x up to 5 tails) and every ordered pair of the reduced item alphabet is compiled, emitted by the real Note.to_string(), wrapped in a page header, compiled again and compared (kind, ZID, body, own tags/links/properties, dates iff ZID, priority unless done/cancelled); ungrouped S note renderings of a real index under every ordering key list are compiled back and must contain exactly the selected notes in order, also through a refreshed .zoq page.",
+        "The first compilation is only the reference for the second (C01 judges it against the written page); index corpus fixed per seed.",
+        "§4 C12",
+    ),
     "C18": (
         "exploration",
         "exhaustive small-scope enumeration of configurations x inputs against a reference model + differential concatenation law",
